@@ -308,11 +308,17 @@ Lemma pc_step_inv : forall s e, (pc_notified s = true -> pc_covered s = true) ->
   (pc_notified (pc_step true s e) = true -> pc_covered (pc_step true s e) = true).
 Proof.
   intros s e H. destruct s as [cl nt er se dd fb qf sf iq isk gc]. unfold pc_covered in *. cbn in H.
-  destruct e; cbn [pc_step pc_notify pc_closed pc_notified pc_err pc_sockerr pc_dead pc_fallback pc_qfull pc_sockfail in_queue in_sock got_close];
-    repeat match goal with
-           | |- context [if ?b then _ else _] => is_var b; destruct b
-           end; cbn in *; intros; try (apply H; assumption); try reflexivity; try discriminate;
-    rewrite ?orb_true_r; try reflexivity; try (apply H; reflexivity).
+  destruct e; cbn [pc_step].
+  - destruct cl; cbn; exact H.
+  - cbn [pc_closed pc_notified]. destruct cl, nt; cbn [andb negb]; try (cbn; exact H).
+    unfold pc_notify. cbn [pc_closed pc_notified pc_err pc_sockerr pc_dead pc_fallback pc_qfull pc_sockfail in_queue in_sock got_close].
+    destruct dd, fb, qf, sf; cbn; intros _; rewrite ?orb_true_r; reflexivity.
+  - cbn. exact H.
+  - cbn. exact H.
+  - cbn. exact H.
+  - cbn. intro Hn. rewrite ?orb_true_r. reflexivity.
+  - cbn [in_queue]. destruct iq; cbn; [|exact H]. intro Hn. rewrite ?orb_true_r. reflexivity.
+  - cbn [in_sock]. destruct isk; cbn; [|exact H]. intro Hn. rewrite ?orb_true_r. reflexivity.
 Qed.
 
 Lemma peer_close_notification_in_flight : forall evs, let s := pc_run true evs in
